@@ -34,6 +34,32 @@ def absent_through_unions(chk, tier):
                 chk.harness_error("counterexample for %s did not reproduce" % l.id)
 
 
+def empty_arrays(chk, tier):
+    """'left out iff unset': an optional array set to [] is set (the class queries abstract values to None / default / other)"""
+    from vlib import leafrt, xh
+
+    n = len(leafrt.opt_array_cases())
+    step = 20
+    ls = [xh.Lemma("empty_%d" % lo, [("k", "int"), ("via", "int")], ["return R.empty_array_is_written(k, via)"], pre=["%d <= k < %d" % (lo, min(n, lo + step)), "0 <= via < 3"], meta={"site": "optional array set to [] is written (cases %d..%d of %d)" % (lo, min(n, lo + step) - 1, n)}) for lo in range(0, n, step)]
+    results, stats = xh.run(ls, ["from vlib import leafrt as R", "R.opt_array_cases()"], timeout=120 if tier == "thorough" else 60, label="c10e")
+    chk.ev.add_counts(xh.summarize(results))
+    chk.ev.coverage["solver_seconds"] += stats["cpu_s"]
+    chk.ev.coverage["optional_arrays"] = n
+    for l in ls:
+        r = results[l.id]
+        if r.verdict == "inconclusive":
+            chk.inconc("%s: %s" % (l.meta["site"], r.message[:160]))
+        elif r.verdict == "refuted":
+            k, via = r.args["k"], r.args["via"]
+            name, cls, attr, wire = leafrt.opt_array_cases()[k][:4]
+            code = "from vlib import leafrt\ndef replay():\n    ok = leafrt.empty_array_is_written(%d, %d)\n    return (bool(ok), '%s.%s set to [] (%s) is not written as []')\n" % (k, via, name, wire, ("constructor", "assignment", "parsing")[via])
+            ok, detail = leafrt.run_code(code)
+            if not ok:
+                chk.violation("%s.%s: %s" % (name, wire, detail), {"kind": "python", "code": code, "site": "%s.%s" % (name, wire), "args": r.args})
+            else:
+                chk.harness_error("counterexample for %s did not reproduce" % l.id)
+
+
 def check(tier):
     chk = runner.Check("C10", tier)
     sat, cases = classlemmas.run_queries(chk, ["emit", "def"])
@@ -50,6 +76,7 @@ def check(tier):
     finally:
         classlemmas.set_variant(None)
     absent_through_unions(chk, tier)
+    empty_arrays(chk, tier)
     chk.ev.coverage["converters_analysed"] = [classlemmas.VARIANTS[None]] + [classlemmas.VARIANTS[v] for v in variants]
     chk.ev.coverage["functions_encoded"] = [{"fn": "unstructure_<Class> and structure_<Class> (cattrs-generated from attrs.fields, _to_camel_case, _omit / is_special_property) for %d classes" % len(cases)}]
     chk.ev.coverage["bounds"] = {"attributes": "every attribute of every class simultaneously set/unset (all 2^n none-vectors), no bound", "values": "abstracted to {None, equals-default, other}"}
